@@ -52,6 +52,9 @@ type xlFunc struct {
 	RecFuel  string   // the function is recursive: LEAN expression over its parameters bounding the recursion depth (fuel of `<Lean>_rec`)
 	RecGroup string   // mutually recursive functions (consecutive whitelist entries with the same group) are emitted in one `mutual` block
 	External string   // already emitted in another generated file under this qualified Lean name: translated for the call interface only
+	Plain    bool     // `interface{}` is a PLAIN Go value (`Val`: scalar / []interface{} / map[string]interface{}) — the codec side; otherwise it is a leaf's value (`Scalar`)
+	Curried  bool     // the body is `return func(params) T { … }`: translated uncurried, the literal's parameters behind the function's own
+	Dispatch string   // synthetic entry (translate_dispatch.go): the dynamic dispatch of the interface method dom.<Dispatch>.<Name> on the implementations
 }
 
 var xlWhitelist = []xlFunc{
@@ -121,6 +124,10 @@ type xlWorld struct {
 	out     []string // definitions in order
 	dom     bool     // translate_dom.go features: DOM interface types, every function in the Res monad
 	recs    map[*types.Func]*xlRec
+	// translate_dispatch.go
+	dispDone map[string]string // interface method name -> generated dispatcher (once its group is emitted)
+	disps    map[*xlFunc]*xlDisp
+	dispInfo map[string]*xlDisp // by interface method name
 }
 
 type xlDone struct {
@@ -151,6 +158,14 @@ func (im xlImporter) Import(p string) (*types.Package, error) { return im.Import
 func (im xlImporter) ImportFrom(p, dir string, m types.ImportMode) (*types.Package, error) {
 	if pk, ok := im.w.tpkgs[p]; ok {
 		return pk, nil
+	}
+	if strings.HasPrefix(p, xlModule) && im.w.repo != "" {
+		// packages of the module are type-checked ONCE, by us (two copies of `dom` have different types)
+		pk, err := im.w.load(im.w.repo, strings.TrimPrefix(p, xlModule))
+		if err != nil {
+			return nil, err
+		}
+		return pk.pkg, nil
 	}
 	return im.base.ImportFrom(p, dir, m)
 }
@@ -233,7 +248,8 @@ func genFrom(repo string, whitelist []xlFunc, dom bool, header, footer string) (
 	}
 	defer os.Chdir(cwd)
 	w := &xlWorld{fset: token.NewFileSet(), pkgs: map[string]*xlPkg{}, tpkgs: map[string]*types.Package{},
-		done: map[*types.Func]*xlDone{}, structs: map[*types.Named]string{}, repo: repo, dom: dom, recs: map[*types.Func]*xlRec{}}
+		done: map[*types.Func]*xlDone{}, structs: map[*types.Named]string{}, repo: repo, dom: dom, recs: map[*types.Func]*xlRec{},
+		dispDone: map[string]string{}, disps: map[*xlFunc]*xlDisp{}, dispInfo: map[string]*xlDisp{}}
 	w.base = importer.ForCompiler(w.fset, "source", nil).(types.ImporterFrom)
 	for i := 0; i < len(whitelist); {
 		// a maximal run of entries with the same non-empty RecGroup is one mutual block
@@ -250,7 +266,7 @@ func genFrom(repo string, whitelist []xlFunc, dom bool, header, footer string) (
 				return "", err
 			}
 			fd := p.find(f.Recv, f.Name)
-			if fd == nil {
+			if fd == nil && f.Dispatch == "" {
 				return "", fmt.Errorf("whitelisted function %s.%s.%s not found", f.Pkg, f.Recv, f.Name)
 			}
 			fds, ps = append(fds, fd), append(ps, p)
